@@ -17,7 +17,21 @@ ASSUMPTIONS = [
 ]
 
 PAIRS = {('"', "“"), ('"', "”"), ("'", "‘"), ("'", "’")}
-ALPHABET = ['"', "'", "a", "s", " ", ".", ",", "\n", "—", "(", "{%", "%}", "x"]
+ALPHABET = ['"', "'", "a", "s", " ", ".", ",", "\n", "—", "(", "{%", "%}", "x", "\r", "\x0c"]
+PARA_BREAK = re.compile(r"\n\s*\n")          # the documented rule: two newlines with optional whitespace between them
+
+
+def paired_within_paragraphs(s, r):
+    """no converted double-quote pair of smart_quotes(s) spans a paragraph break of s"""
+    pos = 0
+    for chunk in PARA_BREAK.split(s):
+        seg_in, seg_out = s[pos:pos + len(chunk)], r[pos:pos + len(chunk)]
+        conv = [y for x, y in zip(seg_in, seg_out) if x != y]
+        if conv.count("“") != conv.count("”") or conv.count("‘") > conv.count("’"):
+            return False
+        m = PARA_BREAK.match(s, pos + len(chunk))
+        pos += len(chunk) + (m.end() - m.start() if m else 0)
+    return True
 
 
 def Q(a, b):
@@ -112,14 +126,27 @@ def bounded(tier, seed):
                 distinct.add(r)
             if not Q(s, r):
                 viol.append({"clause": "Q", "input": {"text": s}, "got": r})
+            elif r != s and not paired_within_paragraphs(s, r):
+                viol.append({"clause": "paired_within_paragraph", "input": {"text": s}, "got": r})
             # tags are copied verbatim
             for m in re.finditer(r"\{%.*?%\}", s, re.S):
                 if r[m.start():m.end()] != m.group(0):
                     viol.append({"clause": "tags_untouched", "input": {"text": s}, "got": r})
+    # quotes that span a paragraph break (two newlines with any whitespace between them) are never a pair
+    for ws in ("", " ", "\t", "\r", "\x0c", "\x0b", "\u00a0", "\u3000", " \r", "\u2028"):
+        for q in ('"', "'"):
+            s = "He said %sone\n%s\ntwo%s ok." % (q, ws, q)
+            r = smart_quotes(s)
+            evals += 1
+            if not Q(s, r) or not paired_within_paragraphs(s, r):
+                viol.append({"clause": "paired_within_paragraph", "input": {"text": s}, "got": r})
     # document level: on vs off
     docs = D.documents(seed, 80 if tier == "quick" else 600, hazards=False)
     docs += ["He said \"it's `a \"q\" b` fine\" and 'x'.\n", "\"a\" <span title=\"t\"> [l](http://x \"T\") \\\"esc\\\" {% t a=\"b\" %} <!-- \"c\" -->\n",
              "\"one\n\ntwo\" para\n", "| \"a\" | 'b' |\n|---|---|\n| it's | \"c\" |\n", "```\n\"code\" it's\n```\n",
+             # template tags that contain their own closer character, with quoted strings inside: verbatim
+             'Use {% set label = "50% off" %} and {# see #12 "why" #} then {{ {"title": "two words"} | tojson }} here "quoted".\n',
+             '# Heading {% if n % 2 %} \'odd\' {% endif %}\n\n- item {# 10 # "x" #} text\n',
              # quotes around sentence ends: converting them must not move a (semantic) line break
              'She said "done". Then she left the room quietly. He said \'ok\'. Next one follows here.\n',
              'It was "fine." Then more words follow here. It was \'fine.\' And again more words here.\n',
@@ -137,6 +164,10 @@ def bounded(tier, seed):
             if not Q(off, on):
                 viol.append({"clause": "doc_Q", "input": {"text": d, "options": o, **P.doc_features(d)}, "got": on[:300], "want": off[:300]})
                 continue
+            for tag in re.findall(r"\{%.*?%\}|\{#.*?#\}|\{\{.*?\}\}|<!--.*?-->", d, re.S):
+                if re.sub(r"\s+", " ", tag) not in re.sub(r"\s+", " ", on):
+                    viol.append({"clause": "tags_untouched", "input": {"text": d, "options": o, **P.doc_features(d)}, "got": on[:300], "construct": tag})
+                    break
             if not pairing_ok(off, on):
                 viol.append({"clause": "paired_within_paragraph", "input": {"text": d, "options": o, **P.doc_features(d)}, "got": on[:300], "want": off[:300]})
             if D.literal_spans(off) != D.literal_spans(on):
@@ -144,7 +175,7 @@ def bounded(tier, seed):
     return {"evaluations": evals, "distinct_nontrivial": len(distinct), "violations": viol,
             "samples": [{"text": "\"a\" it's"}, {"text": docs[-5]}],
             "rule": "smart_quotes on every string of length <= %d over the 13-symbol alphabet %r: Q(input, output) and template tags "
-                    "verbatim; documents of the document space + 18 targeted ones (quotes split over paragraphs, list items, quote blocks, table cells, "
+                    "verbatim; documents of the document space + 20 targeted ones (quotes split over paragraphs, list items, quote blocks, table cells, "
                     "multi-block footnote definitions) x 2 option sets: output with the option on is "
                     "Q-related to the output with it off (same length, same line breaks), every converted opening quote has its converted partner in the same paragraph, and has the same literal spans; distinct = "
                     "distinct changed outputs" % (maxlen, ALPHABET),
